@@ -118,7 +118,7 @@ def reduce_argpos_missing_rows(case, why):
     """F08: argmin/argmax along a non-innermost axis of an option-of-lists array does not count the missing rows
     (argmin([None,[1]],axis=0) gives [0], not [1])."""
     return (case.get("act") == "reduce" and case["args"]["reducer"] in ("argmin", "argmax") and _negaxis(case) >= 2
-            and _option_above_list(case.get("from")) and why.startswith("value differs"))
+            and _option_above_list(case.get("from")) and why.startswith("value differs") and _may_have_short_earlier_row(case))
 
 
 def reduce_regular_inner_refused(case, why):
@@ -151,7 +151,7 @@ def reduce_argpos_indexed_content(case, why):
     positional = (case.get("act") == "argsort"
                   or (case.get("act") == "reduce" and case["args"]["reducer"] in ("argmin", "argmax")))
     return (positional and _negaxis(case) >= 2
-            and _has_class(case.get("from"), "Indexed") and why.startswith("value differs"))
+            and _has_class(case.get("from"), "Indexed") and why.startswith("value differs") and _may_have_short_earlier_row(case))
 
 
 def _has_nan(L):
